@@ -407,7 +407,8 @@ func caseHTTP(r *gen.Rand, idx int) {
 	case status == -1 && abort:
 		// no answer to an upload that broke off: nothing acknowledged
 	case status == -1:
-		none("no HTTP answer")
+		c.Sub += "/no-answer" // transport trouble is not the server's answer; run.py guards against a run made of these
+		c.Judged = false
 	case status >= 200 && status < 300:
 		for i, l := range complete {
 			if l.valid && !seen[i] {
